@@ -159,7 +159,7 @@ func minimise(rp *Replay, budget int, counter *int) *Replay {
 				ok := true
 				for _, loc := range grp.locs {
 					o := opAt(c, loc)
-					if o.Expect != nil && o.Expect.C08 != nil {
+					if o.Expect != nil && (o.Expect.C08 != nil || o.Expect.NoShrink) {
 						ok = false
 						break
 					}
